@@ -52,6 +52,9 @@ def cases(tier, rng):
     yield {'objs': [{}, {'a': 'x\ny'}, {}], 'compression': 'zstd', 'via': 'path'}
     yield {'objs': [{'a': i, 's': 'x' * 50} for i in range(3000)], 'compression': None, 'via': 'shortread'}
     for comp in (None, 'gzip', 'zstd'):
+        for suffix in ('.gz', '.zst', '.jsonl'):
+            yield {'objs': [{'a': 1}, {'b': 'x'}, {}], 'compression': comp, 'via': 'path', 'suffix': suffix}
+            yield {'objs': [], 'compression': comp, 'via': 'path', 'suffix': suffix}
         yield {'objs': [{'a': 1}, {'b': 'x'}, {}], 'compression': comp, 'via': 'at_completion'}
         yield {'objs': [{'a': 1}, {'b': 'x'}, {}], 'compression': comp, 'via': 'open_obj'}
     n = {'quick': 120, 'thorough': 800, 'search': 60}[tier]
@@ -66,18 +69,21 @@ def cases(tier, rng):
                 objs[rng.randrange(k)] = {'big': 'x' * rng.choice([70000, 140000])}
         else:
             objs = [gen_obj(rng) for _ in range(k)]
-        yield {'objs': objs, 'compression': rng.choice([None, 'gzip', 'zstd']), 'via': rng.choice(['path', 'path', 'open_obj', 'fileobj', 'shortread', 'at_completion'])}
+        yield {'objs': objs, 'compression': rng.choice([None, 'gzip', 'zstd']), 'via': rng.choice(['path', 'path', 'open_obj', 'fileobj', 'shortread', 'at_completion']),
+               'suffix': rng.choice(['', '', '.jsonl', '.gz', '.zst', '.json.gz', '.jsonl.zst'])}
 
 
 def real(case):
-    fd, path = tempfile.mkstemp(prefix='verif-c19-')
+    # the file name, with the extensions people give such files (the content is what `compression` says, not what the name suggests)
+    fd, path = tempfile.mkstemp(prefix='verif-c19-', suffix=case.get('suffix', ''))
     # the target already holds an earlier export: dump_to_file replaces it, also when the new dataset is empty
     os.write(fd, b'{"stale": "left over from an earlier export"}\n')
     os.close(fd)
     errs, back = [], []
     opened = []
 
-    def my_open(name, mode, encoding=None):
+    def my_open(name, mode, encoding):
+        # the documented prototype open_obj(filename, mode, encoding): three parameters, none optional;
         # an opener that keeps its files somewhere else (a store with its own name space): `name` is not a local path
         opened.append(mode)
         return open(name + '.alt', mode)
